@@ -48,6 +48,25 @@ macro_rules! len_check {
     }};
 }
 
+/// the same with concrete data (symbolic length and schedule): the float arithmetic of the higher-order merges constant-folds,
+/// which is what makes these instantiations finish; len() cannot depend on the values unless add/merge branch on them
+macro_rules! len_check_concrete {
+    ($i:ident, $T:ty) => {{
+        schedule($i);
+        let xs: [f64; MAXN] = [1.5, -2.0, 0.25, 3.0];
+        let len = $i.usize();
+        vassume!($i, len <= MAXN);
+        let a: $T = by_value(&xs, len).collect();
+        vassert!($i, a.len() == len as u64, "C19:parallel-len-is-sequential-len");
+        vassert!($i, a.is_empty() == (len == 0), "C19:empty-input-gives-empty-estimator");
+        let b: $T = by_ref(&xs, len).collect();
+        vassert!($i, b.len() == len as u64, "C19:parallel-len-is-sequential-len");
+        let cuts = unsafe { (SCHEDULE[0], SCHEDULE[1]) };
+        vcover!($i, len == 4 && cuts.0 == 1 && cuts.1 == 3, "four-items-three-nonempty-pieces");
+        vcover!($i, len == 2 && cuts.0 == 0 && cuts.1 == 0, "two-leading-empty-pieces");
+    }};
+}
+
 harnesses! {
     fn minmax [10] (i) {
         schedule(i);
@@ -73,6 +92,10 @@ harnesses! {
         vcover!(i, len == 0, "empty-input");
     }
     fn mean_len [10] (i) { len_check!(i, Mean) }
+    fn skewness_len_c [10] (i) { len_check_concrete!(i, Skewness) }
+    fn kurtosis_len_c [10] (i) { len_check_concrete!(i, Kurtosis) }
+    fn moments4_len_c [10] (i) { len_check_concrete!(i, M4) }
+    fn moments5_len_c [10] (i) { len_check_concrete!(i, M5) }
     fn variance_len [10] (i) { len_check!(i, Variance) }
     fn skewness_len [10] (i) { len_check!(i, Skewness) }
     fn kurtosis_len [10] (i) { len_check!(i, Kurtosis) }
